@@ -69,6 +69,7 @@ def swarm_config(rng, prop, tier, faults):
         "ext_solver": rng.random() < (0.7 if prop == "C04" else 0.3),
         # scheduling granularity: mean number of consecutive ops one task gets
         "burst": rng.choice((1, 1, 2, 4, 8)),
+        "layouts": rng.random() < 0.3,
     }
 
 
@@ -153,7 +154,14 @@ class Gen:
         return self.rng.randrange(1 << 30)
 
     def vdesc(self, positive=False):
-        """A value-array descriptor from the run's palette."""
+        """A value-array descriptor from the run's palette (sometimes in Fortran
+        order or as a non-contiguous view: same values, other memory layout)."""
+        d = self._vdesc(positive)
+        if self.sw.get("layouts") and self.rng.random() < 0.25:
+            d["lay"] = self.rng.choice(("F", "strided"))
+        return d
+
+    def _vdesc(self, positive=False):
         rng = self.rng
         pal = self.sw["palette"]
         u = rng.random()
@@ -601,7 +609,10 @@ class Editor(Task):
             return {"d": "const", "x": g.r(lo, hi, 2), "scalar": True}
         if rng.random() < 0.3:
             return {"d": "const", "x": g.r(lo, hi, 2)}
-        return {"d": "rand", "lo": lo, "hi": hi, "s": g.seed()}
+        d = {"d": "rand", "lo": lo, "hi": hi, "s": g.seed()}
+        if g.sw.get("layouts") and rng.random() < 0.25:
+            d["lay"] = rng.choice(("F", "strided"))
+        return d
 
     @staticmethod
     def edit_op(g, b, only_c=False, var=None):
